@@ -548,10 +548,10 @@ static void run_case(long k, char *line)
 {
   long before = live_blocks;
   /* a case that does not return within 2 s (e.g. a pointer loop) is abandoned: "<k> H hang";
-   * after 20 of them the driver gives up (the verdict is settled) */
+   * after 10 of them the driver gives up (the verdict is settled) */
   if (sigsetjmp(hang_env, 1) != 0) {
     printf("\n%ld H hang\n", k);
-    if (++hangs >= 20) {
+    if (++hangs >= 10) {
       printf("%ld H giving-up\n", k);
       fflush(stdout);
       _exit(0);
